@@ -19,7 +19,12 @@ Steps ==
     NFilter(NUn("exists", <<NCur, NKey(KB)>>)),
     NFilter(NBin("gt", <<NCur, NAnyArr>>, Lit(0))) }
 
-PathSeq == SetToSeq({<<NRoot>> \o s : s \in SeqsUpTo(Steps, MaxSteps)})
+(* three-step shapes that need all three steps to show a difference: a step  *)
+(* below .** whose leniency must survive an intermediate wildcard/subscript  *)
+Below == {<<NRoot, a, w, k>> : a \in {NAny(0, -1), NAny(1, 1)},
+                               w \in {NAnyArr, NAnyKey, NFilter(NUn("exists", <<NCur, NKey(KB)>>))},
+                               k \in {NKey(KA), NKey(KB), NAnyKey}}
+PathSeq == SetToSeq({<<NRoot>> \o s : s \in SeqsUpTo(Steps, MaxSteps)} \cup Below)
 
 Scalars == {VNull, VTrue, VFlt(1), VStr(KX)}
 (* arrays of length 3 with one ill-shaped element at each position *)
